@@ -51,7 +51,7 @@ func checkC18(c *Check, a *Anchors) {
 	templatePerString(c, a)
 	writerSerialised(c, a)
 	c08CopyExhaustive(c, a) // a "copy" that keeps a mutable reference of the definition is state shared by every concurrent run of the task
-	sharedWait(c, a) // the recorded outcome is written before the completion signal (happens-before for the waiters' read)
+	sharedWait(c, a)        // the recorded outcome is written before the completion signal (happens-before for the waiters' read)
 }
 
 func c18FieldsClassified(c *Check, a *Anchors) {
